@@ -25,6 +25,15 @@ Definition adapters_ok : bool :=
   && forallb (fun p => snd p) gen.Dispatch.plugin_validate_full_rules
   && gen.Dispatch.plugin_validate_uses_auto.
 
+(* the rule code of every type is a function of the message: no site where the result could
+   depend on hash-iteration order, the clock, an RNG or interior-mutable state *)
+Definition rules_deterministic : bool :=
+  forallb (fun p => match snd p with [] => true | _ :: _ => false end) nondeterminism_sites
+  && forallb (fun T => match lookup T nondeterminism_sites with Some _ => true | None => false end) all_types.
+
+Lemma gen_rules_deterministic : rules_deterministic = true.
+Proof. vm_compute. reflexivity. Qed.
+
 Lemma gen_shapes_ok : shapes_ok = true.
 Proof. vm_compute. reflexivity. Qed.
 
